@@ -97,6 +97,44 @@ Section Refine.
   Proof. reflexivity. Qed.
 End Refine.
 
+(* ---- refine_droplets: option dicts handed in by the caller ----------------------------------- *)
+Section RefineOptions.
+  (* `options`: state of the caller's least_squares_params dict; `task d o c` = what the worker call d returns for
+     candidate c when handed options o, and the state of the dict it worked on afterwards.  Whether that dict is
+     the caller's object is the generated fact refine_copies_options. *)
+  Variables candidate outcome_t options : Type.
+  Variable is_none : outcome_t -> bool.
+  Variable task : string -> options -> candidate -> outcome_t * options.
+
+  (* results and the caller's options after refine_droplets(..., num_processes = np, least_squares_params = o) *)
+  Definition refine_droplets_with_options (o : options) (np : nproc) (ncpu : nat) (sigma : list nat)
+             (cands : list candidate) : outcome (list outcome_t * options) :=
+    mapped_with_options is_none P_refine refine_copies_options (task rd_serial_call) o np ncpu sigma cands.
+
+  Theorem refine_options_par_eq_ser o np ncpu sigma cands :
+    usable np ncpu ->
+    rd_parallel_call = rd_serial_call /\
+    refine_droplets_with_options o np ncpu sigma cands
+    = Done (filter (fun r => negb (is_none r)) (map (fun c => fst (task rd_serial_call o c)) cands), o).
+  Proof.
+    intros Hu. split; [reflexivity|]. unfold refine_droplets_with_options.
+    change refine_copies_options with true.
+    rewrite mapped_with_options_par_eq_ser;
+      [reflexivity | reflexivity | reflexivity | apply usable_valid_refine; exact Hu].
+  Qed.
+
+  (* results AND the caller's options are the same for any two process counts and schedules; in particular a
+     later analysis that reuses the options object does not depend on how this one was scheduled *)
+  Corollary refine_options_independent o np1 np2 ncpu1 ncpu2 sigma1 sigma2 cands :
+    usable np1 ncpu1 -> usable np2 ncpu2 ->
+    refine_droplets_with_options o np1 ncpu1 sigma1 cands = refine_droplets_with_options o np2 ncpu2 sigma2 cands.
+  Proof.
+    intros H1 H2.
+    rewrite (proj2 (refine_options_par_eq_ser o np1 ncpu1 sigma1 cands H1)).
+    rewrite (proj2 (refine_options_par_eq_ser o np2 ncpu2 sigma2 cands H2)). reflexivity.
+  Qed.
+End RefineOptions.
+
 (* ---- EmulsionTimeCourse.from_storage -------------------------------------------------------- *)
 Section Storage.
   Variable value : Type.
